@@ -363,7 +363,9 @@ func genC12(tier string, seed uint64, emit func(string)) {
 	strMenu := [][][]byte{bs("SET", "a", "0x10"), bs("SET", "a", "1_000"), bs("SET", "c", "0b1"), bs("SET", "a", "1"), bs("SET", "a", "xyz"), bs("SET", "b", ""), bs("GET", "a"), bs("GET", "b"), bs("GET", "c"), bs("SETNX", "a", "5"), bs("SETNX", "c", "7"),
 		bs("GETSET", "a", "2"), bs("GETSET", "c", ""), bs("INCR", "a"), bs("INCR", "c"), bs("DECR", "b"), bs("INCRBY", "a", "10"), bs("DECRBY", "a", "3"), bs("INCRBY", "c", "0"),
 		bs("APPEND", "a", "7"), bs("APPEND", "c", ""), bs("APPEND", "b", ""), bs("APPEND", "b", "1"), bs("STRLEN", "a"), bs("STRLEN", "c"), bs("EXISTS", "a", "b", "c"), bs("EXISTS", "c"),
-		bs("MSETNX", "c", "1"), bs("MSETNX", "a", "1"), bs("MSET", "a", "4", "c", ""), bs("MGET", "a", "b", "c", "a"), bs("DEL", "a"), bs("DEL", "c"), bs("DEL", "a", "b", "c")}
+		bs("MSETNX", "c", "1"), bs("MSETNX", "a", "1"), bs("MSET", "a", "4", "c", ""), bs("MGET", "a", "b", "c", "a"), bs("DEL", "a"), bs("DEL", "c"), bs("DEL", "a", "b", "c"),
+		// a key named more than once in one key/value list: the last value is the one stored
+		bs("MSETNX", "d", "first", "d", "last"), bs("MSETNX", "c", "1", "c", "3"), bs("MSET", "a", "1", "a", "2"), bs("MSET", "d", "x", "c", "y", "d", ""), bs("GET", "d"), bs("STRLEN", "d"), bs("DEL", "d"), bs("MGET", "d", "c", "d")}
 	ns := 1200
 	if tier == "thorough" {
 		ns = 40000
